@@ -6,6 +6,10 @@ import YarlProofs.C09
 /-!
 # C11 — Every modifier changes only its own component   (audit layer)
 
+Continued in C11HeadlineMore.lean (theorems that need modules which import this file): the authority modifiers
+on URLs WITH a pre-filled cache, on constructor / `build` results and on every URL satisfying the invariant
+`NetlocCanon` (C11Ctor.lean, C03Netloc.lean).
+
 Property statement (verbatim):
 
 > with_scheme, with_user, with_password, with_host, with_port, with_fragment and the query operations
@@ -216,13 +220,20 @@ example : PyStr "a b".toStr ∧ q e0 Gen.QUOTER "a b".toStr ≠ [] := by decide 
 
 /-
 GAPS:
- 1. Authority modifiers (with_user, with_password, with_host, with_port, origin) are proved for URLs
-    satisfying `Written` only, i.e. WITHOUT a pre-filled constructor cache (`u.pre = none`) and with an
-    authority in `make_netloc` form.  For a URL straight from the auto-encoding constructor
-    (`u.pre = some _`) the composition "C09_eager_eq_lazy + C09_modifiers_of_net + these theorems" is not
-    stated anywhere; and no theorem says that the stored netloc of a constructor result satisfies
-    `Written` (NetlocCanon in C03Reach.lean gives the `make_netloc id …` form with stronger side
-    conditions, but the bridge `NetlocCanon e u → ∃ …, Written id (pickleTwin u) …` is not written down).
+ 1. CLOSED by C11_netlocCanon_view / C11_cached_* / C11_netlocCanon_modifiers (C11Ctor.lean) with
+    C03_encodeUrl_netlocCanon / C03_build_netlocCanon / C03_applyOp_netlocCanon (C03Netloc.lean, C03Reach.lean),
+    see (all in C11HeadlineMore.lean) C11_headline_cache_agrees, C11_headline_cached_modifiers,
+    C11_headline_written_of_invariant, C11_headline_invariant_of_ctor / _of_build / _kept,
+    C11_headline_invariant_modifiers, C11_headline_ctor_modifiers, C11_headline_build_modifiers.
+    Proved: (a) for a URL WITH a pre-filled cache that agrees with the stored text
+    (`net e (pickleTwin u) = net e u`: holds for a constructor result under the C09 guard `GoodAuthority`, and for
+    every URL with `NetlocCanon`) and whose cache-less twin is `Written`, with_user / with_user(None) /
+    with_password / with_host / with_port / origin satisfy exactly the statements of this file, about `u` itself;
+    (b) `NetlocCanon e u` with a non-empty authority IMPLIES `Written id (pickleTwin u) user pw h port`, the four
+    components being the raw accessors of `u`; (c) `NetlocCanon` holds for `URL(s)` (Python string `s` whose
+    authority names a supported ASCII host: `AuthInput`) and for `build(encoded=False)` (`BuildNetOK`), and is
+    kept by every operation and by join; hence (d) sentence 1 and origin() hold end to end for such constructor /
+    build results and everything derived from them.  What remains open is item 8.
  2. Authorities NOT in that form (accepted verbatim by `encoded=True` / `build(authority=…, encoded=True)`,
     e.g. an empty host "user@:80", an empty user in front of a password ":pw@h", upper-case or
     non-canonical text): no theorem about what the authority modifiers keep.
@@ -230,14 +241,28 @@ GAPS:
     shown to DROP the user (C11_headline_with_user_fails_for_empty) — the property text does not say so.
  4. with_host: "reads back as the canonicalised argument" is relative to `encodeHost` (C16 says what that
     is); the case "IDNA oracle returns the empty string" (`eh = []`) is excluded, not analysed.
- 5. with_scheme: for a non-ASCII scheme the lower-casing is an oracle call (`lowerAny`); only the ASCII
-    case is pinned to `lower s`.  That with_scheme never touches the authority-derived accessors follows
-    from `v.netloc = u.netloc` only for `u.pre = none` (see 1).
+ 5. PARTLY CLOSED by C11_cached_with_scheme / C11_ctor_with_scheme (C11Ctor.lean), see
+    C11_headline_with_scheme_accessors, C11_headline_ctor_with_scheme_accessors (C11HeadlineMore.lean).
+    Proved: with_scheme leaves raw_user, raw_password, raw_host, explicit_port, host_subcomponent, user, password
+    and host unchanged (as `R` values) also on a URL with a pre-filled cache, provided the cache agrees with the
+    stored text (constructor result under `GoodAuthority`; any URL with `NetlocCanon`).  Remains open: for a
+    non-ASCII scheme the lower-casing is an oracle call (`lowerAny`); only the ASCII case is pinned to `lower s`.
  6. Query operations: only the frame (other four parts unchanged) is here; "reads back as the
     canonicalised argument" is C12.  with_fragment/with_path: that the new component is the QUOTER
     output is stated; that it "reads back" decoded is C06.
  7. with_path/with_name/with_suffix//, joinpath, parent: "keep authority" is equality of the stored netloc
     text; no statement for the `encoded=True` variants beyond with_path and makeChild (with_name /
     with_suffix have no encoded flag in the model).
+ 8. (new) Side conditions of the theorems that close 1.  `AuthInput` / `BuildNetOK` cover ASCII hosts of the
+    supported kinds only (name / IPv4 text of visible ASCII without `/ ? # @ [ ] :`, IPv6 literal with optional
+    zone id, not a bracketed non-IPv6 host).  For an IDN host `NetlocCanon` of the constructor result is
+    C03_idn_netlocCanon_ctor (C03Idn.lean: one URL shape `scheme://host/path#fragment`, under the assumption
+    `IdnaSaneAt` on the answers of the `idna` package); IPvFuture literals ("[v1.x]"), bracketed IPv4 and an
+    empty host ("foo://user@:80") have no derivation of `NetlocCanon` — for them only route (a) of item 1 is
+    available, with `Written` checked on the concrete result.  `GoodAuthority` (route (a) for constructor results)
+    is derived from input conditions by C11_ctor_good_authority (ASCII host text without '[') and
+    C09_good_authority_of; it is not a theorem for every accepted input.  `C11_headline_invariant_kept` asks
+    `op.NetArgs`: a with_host argument must encode to a fixed point of `_encode_host` (proved for every non-empty
+    ASCII argument, C03_withHost_netArgs, and for IDN arguments under `IdnaSaneAt`, C03_idn_withHost_netArgs).
 -/
 end Yarl
